@@ -50,6 +50,14 @@ LEAK_ALLOWED = {
 }
 
 
+def pair_findings(prog, summ):
+    """every call site of an acquire of PAIRS with its escaping exits: yields (fn, acquire, releases, body, term, escapes)"""
+    for acq, rels in PAIRS:
+        for b, bb, t in prog.callers_of(acq, crates=SHIPPED):
+            rel_bbs = [x for x, _ in call_sites(b, rels)]
+            yield owner(b.name), acq, rels, b, t, pair_escapes(b, bb, rel_bbs, summ)
+
+
 def _ok_return_blocks(body, c):
     """blocks where the function commits to a successful return: `_0 = Ok(..)` for Result-returning
     functions, the Return blocks otherwise"""
@@ -83,20 +91,14 @@ def run(prog, chk):
     # ---- R18.1 PAIR -----------------------------------------------------------------------------
     chk.rule("R18.1", "every call site of an acquire has its release on every normal path to Return in the same body")
     n_inst = 0
-    for acq, rels in PAIRS:
-        sites = prog.callers_of(acq, crates=SHIPPED)
-        # wrapper halves themselves are not instances of their own raw pair
-        for b, bb, t in sites:
-            fn = owner(b.name)
-            n_inst += 1
-            rel_bbs = [x for x, _ in call_sites(b, rels)]
-            esc = pair_escapes(b, bb, rel_bbs, summ)
-            for key, msg, path in esc:
-                chk.fail("R18.1", fn, "%s|%s" % (acq.rsplit("::", 1)[-1], key),
-                         "%s … %s: %s" % (acq, "/".join(sorted(rels)), msg), detail={"path_blocks": path})
-            if not esc:
-                chk.ok("R18.1", "%s@%s" % (acq.rsplit("::", 1)[-1], fn),
-                       "release %s post-dominates the acquire at %s (normal paths)" % ("/".join(r.rsplit("::", 1)[-1] for r in rels), b.loc(t.line)), function=fn)
+    for fn, acq, rels, b, t, esc in pair_findings(prog, summ):
+        n_inst += 1
+        for key, msg, path in esc:
+            chk.fail("R18.1", fn, "%s|%s" % (acq.rsplit("::", 1)[-1], key),
+                     "%s … %s: %s" % (acq, "/".join(sorted(rels)), msg), detail={"path_blocks": path})
+        if not esc:
+            chk.ok("R18.1", "%s@%s" % (acq.rsplit("::", 1)[-1], fn),
+                   "release %s post-dominates the acquire at %s (normal paths)" % ("/".join(r.rsplit("::", 1)[-1] for r in rels), b.loc(t.line)), function=fn)
     chk.floor("R18.1", "acquire call sites", n_inst, 6)
 
     # wrapper halves
